@@ -64,8 +64,9 @@ class Ctx:
 _built = False
 
 
-def build_harness(ctx=None):
-    """cargo build --release of the harness against /repo's current working tree, hooks on."""
+def build_harness(ctx=None, bin=None):
+    """cargo build --release of the harness (all bins) against /repo's current working tree, hooks on.
+    If the whole set does not compile but the binary this check needs does, the check goes on with it."""
     global _built
     if _built:
         return
@@ -80,6 +81,12 @@ def build_harness(ctx=None):
         ["cargo", "build", "--release", "--offline", "--bins"],
         cwd=HARNESS, env=env, stdout=subprocess.PIPE, stderr=subprocess.STDOUT, text=True,
     )
+    if p.returncode != 0 and bin:
+        p2 = subprocess.run(["cargo", "build", "--release", "--offline", "--bin", bin],
+                            cwd=HARNESS, env=env, stdout=subprocess.PIPE, stderr=subprocess.STDOUT, text=True)
+        if p2.returncode == 0:
+            print(f"note: another harness binary does not compile; continuing with {bin}", flush=True)
+            p = p2
     if p.returncode != 0:
         sys.stdout.write(p.stdout[-6000:])
         raise ToolError("harness build failed (compile error in /repo working tree or harness)")
@@ -91,7 +98,7 @@ def build_harness(ctx=None):
 def vh(ctx, args, stdin=None, timeout=3600, check=True, env_extra=None, bin="vh"):
     """Run the harness binary; returns stdout text. Non-zero exit is a tool error
     (the harness reports disagreements as data, never via exit status)."""
-    build_harness(ctx)
+    build_harness(ctx, bin)
     env = dict(os.environ)
     env["VERIF_SEED"] = str(ctx.seed)
     env["RAYON_NUM_THREADS"] = env.get("RAYON_NUM_THREADS", "16")
